@@ -191,7 +191,10 @@ func apply(c caseT) (rep replyT, died bool, diag string, err error) {
 
 // ---- generators ----------------------------------------------------------------------------------------
 
-var danger = []string{"0", "0", "1", "2", "10", "1000", "2147483648", "4294967296", "9223372036854775807", "9223372036854775808", "99999999999999999999"}
+// (besides the integer limits: the values that overflow to exactly 0 or to a tiny or negative number when a count of
+// seconds / milliseconds / microseconds is turned into nanoseconds -- k*2^55, k*2^58, k*2^61, limit/1e9, limit/1e6, limit/1e3)
+var danger = []string{"0", "0", "1", "2", "10", "1000", "2147483648", "4294967296", "9223372036854775807", "9223372036854775808", "99999999999999999999",
+	"36028797018963968", "288230376151711744", "2305843009213693952", "9223372037", "9223372036855", "9223372036854776", "18446744073710", "18446744073709551615", "72057594037927936"}
 
 // sizes: buffers the relay really allocates; absurd sizes are plain memory exhaustion requested by the
 // operator, not a crash class of the property, so they stay within what a machine can satisfy
